@@ -266,6 +266,38 @@ void h_collect(void) {
 }
 #endif
 
+#ifdef HARNESS_h_free_delayed
+/* C08: the owner frees a block that a remote thread parked on the heap's delayed list: the page's delayed-free flag is
+   re-armed (so the next remote free into a full page is noticed again), remote frees are collected, the block is freed */
+void h_free_delayed(void) {
+  make_page(true, NBLK);
+  size_t fm = mask_of(FREE), lm = mask_of(LOCAL), tm = mask_of(TFREE);
+  size_t k = nd_size(); ASSUME(k < NBLK && st[k] == LIVE);
+  PG.flags.x.has_aligned = 0;
+  uintptr_t t = mi_atomic_load_relaxed(&PG.xthread_free);
+  uintptr_t fl0 = nd_u8() % 3 == 0 ? MI_NO_DELAYED_FREE : (nd_bool() ? MI_USE_DELAYED_FREE : MI_NEVER_DELAYED_FREE);
+  mi_atomic_store_release(&PG.xthread_free, (t & ~(uintptr_t)3) | fl0);
+#if MI_PADDING
+  pad_live(k, 8);
+#endif
+  snapshot();
+  uint16_t used0 = PG.used; bool was_full = PG.flags.x.in_full;
+  bool ok = _mi_free_delayed_block(blk(k));
+  CHECK(ok, "no remote thread is mid-flight: the delayed block is freed");
+  uintptr_t fl1 = mi_atomic_load_relaxed(&PG.xthread_free) & 3;
+  if (fl0 != MI_NEVER_DELAYED_FREE) CHECK(fl1 == MI_USE_DELAYED_FREE, "C08: the delayed-free flag is re-armed whenever a delayed block is processed (whatever queue the page is in)");
+  else CHECK(fl1 == MI_NEVER_DELAYED_FREE, "NEVER_DELAYED_FREE is not overridden");
+  CHECK(mi_tf_block(mi_atomic_load_relaxed(&PG.xthread_free)) == NULL, "pending remote frees of the page are collected");
+  size_t f2 = walk(PG.free, ""), l2 = walk(PG.local_free, "");
+  CHECK((f2 | l2) == (fm | lm | tm | ((size_t)1 << k)) && (f2 & l2) == 0, "C08: the delayed block and all remote frees are on the owner's lists: none lost");
+  CHECK(PG.used == used0 - 1 - (uint16_t)__builtin_popcountll(tm), "used recounted exactly");
+  CHECK(n_retire == (PG.used == 0 ? 1 : 0), "page retired when its last block is freed");
+  if (PG.used != 0) CHECK(n_unfull == (was_full ? 1 : 0), "C08: a full page goes back to its size queue");
+  check_live_untouched((size_t)1 << k);
+  WITNESS("end");
+}
+#endif
+
 #ifdef HARNESS_h_extend
 /* C01.4: free-list extension only within reserved capacity */
 void h_extend(void) {
